@@ -49,10 +49,16 @@ Init == /\ g = 1                       \* the library commits over the group's g
 Step(op, i, j, s, t) == /\ slots' = Append(slots, t)
                         /\ prog' = [prog EXCEPT !.steps = Append(@, [op |-> op, i |-> i, j |-> j, s |-> s])]
                         /\ UNCHANGED <<g, lam>>
+StepN(i, js, t) == /\ slots' = Append(slots, t)
+                   /\ prog' = [prog EXCEPT !.steps = Append(@, [op |-> "opn", i |-> i, j |-> 0, s |-> 0, js |-> js])]
+                   /\ UNCHANGED <<g, lam>>
 Last == Len(slots)
+\* operand lists of the variadic call: every pair of earlier slots, and two longer lists
+OpnLists == {<<j1, j2>> : j1, j2 \in 1..Len(slots)} \cup {<<1, 2, Len(slots)>>, <<Len(slots), 1, 1, 2>>}
 \* programmes extend the last slot (combined with any earlier one)
 Next == /\ Len(prog.steps) < MaxSteps
         /\ \/ \E j \in 1..Last : Step("op", Last, j, 0, TOp(Pub, slots[Last], slots[j]))
+           \/ \E js \in OpnLists : StepN(Last, js, TOpN(Pub, slots[Last], [k \in 1..Len(js) |-> slots[js[k]]]))
            \/ Step("inv", Last, 0, 0, TInv(Pub, slots[Last]))
            \/ \E s \in F : Step("scal", Last, 0, s, TScal(Pub, slots[Last], s))
            \/ \E r \in F : Step("rerand", Last, 0, r, TReRand(Pub, slots[Last], r))
